@@ -8,6 +8,8 @@ package rty
 
 import (
 	"fmt"
+	"math"
+	"math/big"
 	"reflect"
 	"sort"
 	"strings"
@@ -456,6 +458,39 @@ var TimePrinter = Printer{
 				return "(VText " + coqfmt.Str("") + ")", true
 			}
 			return fmt.Sprintf("(VList [VInt (%d)%%Z; VInt (%d)%%Z])", tm.Unix(), tm.Nanosecond()), true
+		}
+		return "", false
+	},
+}
+
+// floatZ: f*1024 as a Coq integer literal, exactly, whatever the magnitude (ValTerm goes through
+// int64); an infinity as +-2^2000.
+func floatZ(f float64) string {
+	if math.IsInf(f, 0) || math.IsNaN(f) {
+		if f < 0 {
+			return "(-(2 ^ 2000))%Z"
+		}
+		return "(2 ^ 2000)%Z"
+	}
+	bf := new(big.Float).SetPrec(2100).SetFloat64(f)
+	bf.Mul(bf, big.NewFloat(1024))
+	i, _ := bf.Int(nil)
+	return "(" + i.String() + ")%Z"
+}
+
+// FloatTerm prints a float the way the models carry one: its value times 1024 as an integer.
+func FloatTerm(f float64) string { return "(VFloat " + floatZ(f) + ")" }
+
+// ExactFloatPrinter prints float and complex leaves exactly.
+var ExactFloatPrinter = Printer{
+	LeafTy: func(reflect.Type) (string, bool) { return "", false },
+	LeafVal: func(v reflect.Value) (string, bool) {
+		switch v.Kind() {
+		case reflect.Float32, reflect.Float64:
+			return FloatTerm(v.Float()), true
+		case reflect.Complex64, reflect.Complex128:
+			c := v.Complex()
+			return "(VList [VFloat " + floatZ(real(c)) + "; VFloat " + floatZ(imag(c)) + "])", true
 		}
 		return "", false
 	},
